@@ -85,3 +85,150 @@ def vm_variant(v):
         inner = v.payload[0] if v.payload else None
         return (v.variant, inner.name if isinstance(inner, Struct) else repr(inner))
     return (repr(v), '')
+
+
+# ---------------------------------------------------------------------------------------------------------
+from ..facts import LANGS, TRAIT, interp_ty  # noqa: E402
+from .facade import FACADE, TYPE_OF_VARIANT  # noqa: E402
+
+
+class _Tok:
+    """An opaque argument: only its identity matters."""
+
+    def __init__(self, name):
+        self.name = name
+
+    def __repr__(self):
+        return '<%s>' % self.name
+
+
+class _DelegEnv:
+    def __init__(self, variants):
+        self.variants = variants
+        self.calls = []
+        self.result = _Tok('result')
+
+    def call(self, vm, name, callee, resolved, args, t):
+        if args and name.startswith('LangInterpreter::'):
+            recv = vm.deref(args[0])
+            if isinstance(recv, Struct) and recv.name in self.variants:
+                self.calls.append((recv.name, name.split('::')[-1], [vm.deref(a) for a in args[1:]]))
+                return self.result
+        return NotImplemented
+
+
+def rule_delegation_vm(ctx, rep):
+    f = ctx.facts
+    R = 'C-DELEGATION'
+    rep.rule(R, 'every trait method a concrete interpreter defines is defined by the facade; interpreted on the abstract machine for each '
+                '(method, variant) with opaque arguments, the facade makes exactly one call — the same-named method of that variant\'s '
+                'interpreter with its own arguments, in order — and returns that call\'s result unchanged')
+    trait = next((t for t in f.items['traits'] if t['path'] == TRAIT), None)
+    if not trait:
+        rep.anchor(R, 'trait', 'trait %s not found' % TRAIT)
+        return
+    methods = {i['name']: i for i in trait['items'] if i['kind'] == 'Fn'}
+    required = {n for n, i in methods.items() if not i['has_default']}
+    overridden = set()
+    concrete, facade_impl = {}, None
+    for imp in f.items['impls']:
+        if imp.get('trait') != TRAIT:
+            continue
+        if imp['self_ty'] == FACADE:
+            facade_impl = imp
+        else:
+            concrete[imp['self_ty']] = imp
+            for it in imp['items']:
+                if it['name'] in methods and methods[it['name']]['has_default']:
+                    overridden.add(it['name'])
+    for v, t in TYPE_OF_VARIANT.items():
+        if t not in concrete:
+            rep.anchor(R, 'impl|' + t, 'no `impl LangInterpreter for %s` found' % t)
+    lang_adt = f.adts.get(FACADE)
+    if not facade_impl or not lang_adt:
+        rep.anchor(R, 'facade', 'enum Language or its `impl LangInterpreter` not found')
+        return
+    variants = {}
+    for v in lang_adt['variants']:
+        if len(v['fields']) != 1:
+            rep.violation(R, 'variant|' + v['name'], 'variant does not wrap exactly one interpreter', lang_adt['sp'])
+            continue
+        variants[v['name']] = v['fields'][0]['ty']
+    for v, t in TYPE_OF_VARIANT.items():
+        rep.check(variants.get(v) == t, R, 'variant-payload|' + v, 'Language::%s wraps %s' % (v, t),
+                  'Language::%s wraps %s, expected %s' % (v, variants.get(v), t), f.loc(lang_adt['sp']))
+    facade_items = {i['name'] for i in facade_impl['items']}
+    n = 0
+    for m in sorted(required | overridden):
+        if m not in facade_items:
+            rep.violation(R, 'method|' + m, 'the facade does not define `%s`, which %s; facade users get the default body instead of the '
+                          'language\'s own' % (m, 'is required' if m in required else 'some concrete interpreter overrides'), f.loc(facade_impl['sp']))
+            continue
+        path = '<%s as %s>::%s' % (FACADE, TRAIT, m)
+        body = f.mir_body(path)
+        if body is None:
+            rep.anchor(R, 'method|' + m, 'no MIR for ' + path)
+            continue
+        for v, ty in variants.items():
+            ent = '%s|%s' % (m, v)
+            tyname = ty.split('::')[-1]
+            env = _DelegEnv({tyname})
+            vm = VM(f, env)
+            args = [_Tok('arg%d' % i) for i in range(1, body['arg_count'])]
+            try:
+                r = vm.run(body, [Enum(FACADE, v, [Struct(tyname, {})])] + args)
+            except (Unsupported, Panic) as e:
+                rep.anchor(R, ent, 'cannot interpret the facade method: %s' % e)
+                continue
+            n += 1
+            r = vm.deref(r)
+            problems = []
+            if len(env.calls) != 1:
+                problems.append('%d calls to the interpreter (%s)' % (len(env.calls), [c[1] for c in env.calls]))
+            else:
+                who, what, got = env.calls[0]
+                if what != m:
+                    problems.append('calls `%s` instead of `%s`' % (what, m))
+                if len(got) != len(args) or any(a is not b for a, b in zip(got, args)):
+                    problems.append('passes %s, expected its own arguments %s' % (got, args))
+                if r is not env.result:
+                    problems.append('returns %r, not the result of the delegated call' % (r,))
+            rep.check(not problems, R, ent, 'Language::%s(l).%s(..) == l.%s(..)' % (v, m, m), 'Language::%s: %s' % (v, '; '.join(problems)), f.loc(body['sp']))
+    rep.floor(R, n, 56, 'delegation obligations (methods x variants)')
+    # the provided exec_group reaches the language only through trait methods of self (so facade == concrete there too)
+    eg = f.mir_body(TRAIT + '::exec_group')
+    if eg is None:
+        rep.anchor(R, 'exec_group', 'provided method exec_group not found')
+
+
+def rule_constructors_vm(ctx, rep):
+    f = ctx.facts
+    R = 'C-CTOR'
+    rep.rule(R, 'Language::x(), interpreted, is variant X holding the same value as <X as Default>::default(); X::new() gives that value too')
+    n = 0
+    for ctor, variant in CTOR_OF_LANG.items():
+        ent = 'Language::' + ctor
+        ty = TYPE_OF_VARIANT[variant]
+        try:
+            got = VM(f, IsoEnv()).run('%s::%s' % (FACADE, ctor), [])
+            dflt = VM(f, IsoEnv()).run('<%s as core::default::Default>::default' % ty, [])
+        except (Unsupported, Panic) as e:
+            rep.anchor(R, ent, 'cannot interpret the constructor: %s' % e)
+            continue
+        n += 1
+        ok = isinstance(got, Enum) and got.variant == variant and got.payload and got.payload[0] == dflt and isinstance(dflt, Struct) and dflt.name == variant
+        rep.check(ok, R, ent, 'returns Language::%s(%s::default())' % (variant, variant), 'returns %r, expected Language::%s(%r)' % (got, variant, dflt))
+    for lang, tyname in LANGS.items():
+        t = interp_ty(lang)
+        if f.mir_body(t + '::new') is None:
+            rep.info(R, tyname + '::new', 'no inherent new()')
+            continue
+        try:
+            a = VM(f, IsoEnv()).run(t + '::new', [])
+            b = VM(f, IsoEnv()).run('<%s as core::default::Default>::default' % t, [])
+        except (Unsupported, Panic) as e:
+            rep.anchor(R, tyname + '::new', 'cannot interpret: %s' % e)
+            continue
+        n += 1
+        rep.check(a == b, R, tyname + '::new', 'is Default::default()', 'new() gives %r, default() gives %r' % (a, b))
+    rep.floor(R, n, 14, 'constructor obligations')
